@@ -1142,3 +1142,62 @@ Proof.
   split; [left; reflexivity|]. split; [vm_compute; reflexivity|]. split; [left; reflexivity|]. split; [vm_compute; reflexivity|].
   vm_compute. intros e [<-|[]]. cbn. split; [discriminate|]. intros [H|[]]. discriminate.
 Qed.
+
+(* ------------------------------------------------------------------ the cascade deletes EXACTLY the recorded dependants:
+   a reference is deleted only if it is a root of a model that failed, or a recorded dependant of a deleted reference *)
+Inductive Reach (D : list (ref * root)) (cbr : list (ref * payload)) (work : list root) : ref -> Prop :=
+| reach_root : forall r, In (RRef r) work -> has cbr r = true -> Reach D cbr work r
+| reach_dep : forall t r, Reach D cbr work t -> In (t, RRef r) D -> has cbr r = true -> Reach D cbr work r.
+
+Lemma remove_wl_exact D : forall fuel work cbr cbn acc cbr' cbn' acc',
+  remove_wl fuel D work cbr cbn acc = (cbr', cbn', acc') ->
+  forall r, has cbr r = true -> has cbr' r = false -> Reach D cbr work r.
+Proof.
+  induction fuel as [|fuel IH]; intros work cbr cbn acc cbr' cbn' acc' H r H1 H2; cbn [remove_wl] in H.
+  - inversion H; subst. congruence.
+  - destruct work as [|[r0|c] w].
+    + inversion H; subst. congruence.
+    + destruct (has cbr r0) eqn:E.
+      * destruct (N.eq_dec r0 r) as [->|Hne]; [apply reach_root; [now left|exact H1]|].
+        assert (H1' : has (del r0 cbr) r = true) by (rewrite has_del_other; auto).
+        specialize (IH _ _ _ _ _ _ _ H r H1' H2).
+        clear - IH E. induction IH as [r Hin Hh|t r _ IHt Hin Hh].
+        -- apply in_app_or in Hin. destruct Hin as [Hin|Hin].
+           ++ apply reach_dep with (t := r0); [apply reach_root; [now left|exact E]|now apply in_children|eapply has_del_le; eauto].
+           ++ apply reach_root; [now right|eapply has_del_le; eauto].
+        -- eapply reach_dep; [exact IHt|exact Hin|eapply has_del_le; eauto].
+      * specialize (IH _ _ _ _ _ _ _ H r H1 H2).
+        clear - IH. induction IH as [r Hin Hh|t r _ IHt Hin Hh]; [apply reach_root; [now right|exact Hh]|eapply reach_dep; eauto].
+    + specialize (IH _ _ _ _ _ _ _ H r H1 H2).
+      clear - IH. induction IH as [r Hin Hh|t r _ IHt Hin Hh]; [apply reach_root; [now right|exact Hh]|eapply reach_dep; eauto].
+Qed.
+
+Lemma Reach_le D cbr cbr0 work r : keys_le cbr cbr0 -> Reach D cbr work r -> Reach D cbr0 work r.
+Proof. intros K H. induction H; [apply reach_root; auto|eapply reach_dep; eauto]. Qed.
+
+Lemma model_errors_exact D : forall mes cbr cbn cbrF cbnF es,
+  model_errors D mes cbr cbn = (cbrF, cbnF, es) ->
+  forall r, has cbr r = true -> has cbrF r = false -> exists q c, In (q, c) mes /\ Reach D cbr (e_roots (q_entry q)) r.
+Proof.
+  induction mes as [|[q c] mes IH]; intros cbr cbn cbrF cbnF es H r H1 H2; cbn [model_errors] in H.
+  - inversion H; subst. congruence.
+  - destruct (remove_roots D (e_roots (q_entry q)) cbr cbn) as [[cbr1 cbn1] acc] eqn:R.
+    destruct (model_errors D mes cbr1 cbn1) as [[cbr2 cbn2] es2] eqn:M. inversion H; subst. clear H.
+    destruct (remove_roots_spec _ _ _ _ _ _ _ R) as (R1 & _).
+    destruct (has cbr1 r) eqn:E1.
+    + destruct (IH _ _ _ _ _ M r E1 H2) as [q0 [c0 [A B]]]. exists q0, c0. split; [now right|eapply Reach_le; eauto].
+    + exists q, c. split; [now left|]. unfold remove_roots in R. eapply remove_wl_exact; eauto.
+Qed.
+
+(* T removal_exact (C08, containment of the cascade): nothing but the recorded dependants+ of the models that failed is deleted,
+   and create / process never delete anything (ext): whatever is unrelated to a failing model stays in classes_by_reference *)
+Theorem removal_exact g :
+  let s2 := r_st (process_loop (r_st (create_loop g))) in
+  let pl := process_loop (r_st (create_loop g)) in
+  forall r, has (s_cbr s2) r = true -> has (res_cbr (build_schemas g)) r = false ->
+  exists q c, In (q, c) (r_final pl ++ r_retry pl) /\ Reach (s_deps s2) (s_cbr s2) (e_roots (q_entry q)) r.
+Proof.
+  cbn zeta. intros r H1 H2. unfold build_schemas in H2.
+  destruct (model_errors _ _ _ _) as [[cbrF cbnF] es] eqn:M. cbn [res_cbr] in H2.
+  eapply model_errors_exact; eauto.
+Qed.
